@@ -9,6 +9,7 @@ CONSTANTS
   TrackDist = TRUE
   TrackOperand = FALSE
   AdoptLists = FALSE
+  BookkeepFirst = FALSE
   CacheChecksCount = FALSE
 INVARIANT CacheFresh
 INVARIANT GraphAgrees
